@@ -156,7 +156,7 @@ impl SubCheckT for TopDown {
     const NAME: &'static str = "topdown";
     const RULE: &'static str = "random CNF (n<=7, incl. empty formula, empty/unit/duplicate/tautological clauses, repeated gadgets on disjoint blocks) x random permutation of its variables as decision order x {standard, semantic(64-bit)} node store: result is the false constant iff brute force finds no model; truth table (walked) = CNF's; no path repeats a variable; condition(r,v,b) and condition(not r,v,b) denote the cofactor / its negation for every v,b. Non-trivial: satisfiable, non-tautological, support >= 3";
     fn cases(tier: Tier) -> u32 {
-        tier.pick(4000, 150_000)
+        tier.pick(12_000, 200_000)
     }
     fn strategy(_tier: Tier) -> BoxedStrategy<Case> {
         (
